@@ -173,13 +173,13 @@ Print Assumptions C16_expansion_valid.
 (* selector-driven transform (fragment of Xform/WalkT.v), for every setting of the selector switches
    (before / after the selector fixes b8b93dd, 873f3b3, 87fc183): identity law on link-free trees ... *)
 Theorem C16_walk_identity :
-  forall sq st fuel s n log r, link_free n = true -> wt sq gsame st fuel s n log = Ok r -> fst r = n.
+  forall sq st fuel s here n log r, link_free n = true -> wt sq gsame st fuel s here n log = Ok r -> fst r = n.
 Proof. exact walk_identity_link_free. Qed.
 Print Assumptions C16_walk_identity.
 
 (* ... and its failure across links: the loaded block is returned in place of the link *)
 Theorem C16_walk_relink_refuted : forall sq,
-  exists st root r, wt sq gsame st 20 sel_all root [] = Ok r /\ fst r <> root /\ fst r = inline 5 st root.
+  exists st root r, wt sq gsame st 20 sel_all [] root [] = Ok r /\ fst r <> root /\ fst r = inline 5 st root.
 Proof. exact walk_identity_inlines_links. Qed.
 Print Assumptions C16_walk_relink_refuted.
 
